@@ -108,7 +108,7 @@ def tlc(module, cfg, workers=None, simulate=None, depth=None, seed=None, timeout
                 em = re.search(r"Error: (.*)", out)
                 res.error = (em.group(1) if em else "TLC exit code %d" % rc)
         if coverage:
-            for m in re.finditer(r"^<(\w+) line \d+, col \d+ to line \d+, col \d+ of module \w+>: (\d+):(\d+)", out, re.M):
+            for m in re.finditer(r"^<(\w+) [^>\n]*>: (\d+):(\d+)", out, re.M):
                 res.coverage[m.group(1)] = res.coverage.get(m.group(1), 0) + int(m.group(3))
         return res
     finally:
@@ -292,7 +292,7 @@ class Report:
 
 # ------------------------------------------------------------------------------ trace validation
 
-def validate_traces(module, cfg, traces, timeout=600, batch=400):
+def validate_traces(module, cfg, traces, timeout=600, batch=400, max_rejections=12):
     """Validates recorded traces (lists of event dicts) against a Trace spec. Traces are concatenated with
     {"ev":"reset"} separators and checked by TLC batch-wise (one JVM start per batch).
     Returns (accepted, rejected:list of dict(index, at, event, kind)) where kind is 'invariant:<name>' when a
@@ -300,8 +300,10 @@ def validate_traces(module, cfg, traces, timeout=600, batch=400):
     accepted, rejected = 0, []
     i = 0
     while i < len(traces):
+        if len(rejected) >= max_rejections:
+            break  # enough to report; the remaining traces are not validated (and not counted as accepted)
         chunk = traces[i:i + batch]
-        acc, rej = _validate_chunk(module, cfg, chunk, timeout)
+        acc, rej = _validate_chunk(module, cfg, chunk, timeout, max_rejections - len(rejected))
         accepted += acc
         for r in rej:
             r["index"] += i
@@ -310,7 +312,7 @@ def validate_traces(module, cfg, traces, timeout=600, batch=400):
     return accepted, rejected
 
 
-def _validate_chunk(module, cfg, chunk, timeout):
+def _validate_chunk(module, cfg, chunk, timeout, budget=12):
     lines, starts = [], []
     for t in chunk:
         starts.append(len(lines) + 1)
@@ -346,14 +348,11 @@ def _validate_chunk(module, cfg, chunk, timeout):
         ev = json.loads(lines[at - 1]) if 0 < at <= len(lines) else None
         rej = [dict(index=idx, at=at - starts[idx], event=ev, kind=kind)]
         # validate the traces before and after the failing one separately
+        # the traces before the failing one were consumed without objection in this very run
         before, after = chunk[:idx], chunk[idx + 1:]
-        acc = 0
-        if before:
-            a2, r2 = _validate_chunk(module, cfg, before, timeout)
-            acc += a2
-            rej = r2 + rej
-        if after:
-            a3, r3 = _validate_chunk(module, cfg, after, timeout)
+        acc = len(before)
+        if after and budget > 1:
+            a3, r3 = _validate_chunk(module, cfg, after, timeout, budget - 1)
             acc += a3
             for x in r3:
                 x["index"] += idx + 1
